@@ -400,6 +400,37 @@ class World:
         self.emit({"op": "rec_eq", "a": a, "b": b}, {"eq": bool(res)})
         return res
 
+    def enc_json(self, c, **kwargs):
+        """writer channel: the tree the implementation's PROV-JSON writer emits (after json.loads)"""
+        from . import jsontree
+        try:
+            text = self.conts[c].serialize(format="json", **kwargs)
+            tree = jsontree.loads_ordered(text)
+            out = {"tree": jsontree.canon_ordered(tree)}
+        except Exception as e:  # noqa
+            text = None
+            out = {"tree": None, "err": err_name(e)}
+        self.emit({"op": "enc_json", "c": c}, out)
+        return text
+
+    def dec_json(self, text):
+        """reader channel: the same JSON text to the implementation's reader and (as a tree) to the model's"""
+        from . import jsontree
+        tree = jsontree.loads_ordered(text)
+        op = {"op": "dec_json", "tree": jsontree.to_tagged(tree)}
+        try:
+            d = ProvDocument.deserialize(content=text, format="json")
+            err = None
+        except Exception as e:  # noqa
+            d = None
+            err = e
+        h = None
+        if d is not None:
+            h = self.bind_cont(d)
+            op["as"] = h
+        self.emit(op, {"err": err_name(err)})
+        return h, err
+
     def obs(self, c):
         o = proto.canon_cont(self.conts[c])
         self.emit({"op": "obs", "c": c}, o)
@@ -476,6 +507,11 @@ def diff_outputs(ops, impl_outs, model_outs):
         if "fatal" in b:
             return i, "model-fatal: %s" % b["fatal"]
         proto.normalize_model_obs(b)
+        if ops[i]["op"] == "enc_json":
+            if b.get("unspecified"):
+                continue          # outside the model's envelope (counted by the caller)
+            from . import jsontree
+            b = {"tree": jsontree.canon_tagged(b["tree"])}
         if a != b:
             if ops[i]["op"] in ("obs", "obs_rec") and uri_projection(a) == uri_projection(b):
                 DIVERGENCES["prefix-level"] += 1
